@@ -17,6 +17,7 @@ structure Inv (s : State V) : Prop where
   empty_entry : s.nodes.count = 0 → s.entry = 0
   l0 : ∀ j, s.nodes.contains j = true → (nbrsAt s 0 j).Nodup ∧ j ∉ nbrsAt s 0 j
   comp : Complete0 s
+  entry_comp : ∀ v, Live s v → v ≠ s.entry → v ∈ nbrsAt s 0 s.entry
 
 theorem count_eq_zero_iff {α : Type} (mp : IdMap α) : mp.count = 0 ↔ ∀ j, mp.contains j = false := by
   simp only [IdMap.count, List.length_eq_zero_iff]
@@ -61,77 +62,6 @@ theorem nbrsAt_new (v : V) (level l : Nat) : ((Node.new v level).edges[l]?).getD
 section
 variable (m : Metric V S)
 
-/-! ### the greedy descent stays inside any neighbour-closed set -/
-
-theorem greedyPass_closed (s : State V) (q : V) (P : Id → Prop) :
-    ∀ (nbs : List Id) (acc acc' : Id × S × Bool),
-      (∀ nb ∈ nbs, isDeleted s nb = false → s.nodes.contains nb = true → P nb) → P acc.1 →
-      greedyPass m s q nbs acc = .ok acc' → P acc'.1 := by
-  intro nbs
-  induction nbs with
-  | nil =>
-    intro acc acc' _ hl h
-    simp only [greedyPass, Except.ok.injEq] at h; subst h; exact hl
-  | cons nb rest ih =>
-    intro acc acc' hnb hl h
-    obtain ⟨curr, cd, ch⟩ := acc
-    have hrest := fun x hx => hnb x (List.mem_cons_of_mem _ hx)
-    simp only [greedyPass] at h
-    split at h
-    · exact ih _ _ hrest hl h
-    · next hdel =>
-      split at h
-      · cases h
-      · next n hn =>
-        split at h
-        · refine ih _ _ hrest ?_ h
-          exact hnb nb (by simp) (by simpa using hdel) (IdMap.contains_iff.2 ⟨n, node!_eq hn⟩)
-        · exact ih _ _ hrest hl h
-
-theorem greedyLayer_closed (s : State V) (q : V) (lc : Nat) (P : Id → Prop)
-    (hcl : ∀ u, P u → ∀ w ∈ nbrsAt s lc u, isDeleted s w = false → s.nodes.contains w = true → P w) :
-    ∀ (fuel : Nat) (acc acc' : Id × S), P acc.1 →
-      greedyLayer m s q lc fuel acc = .ok acc' → P acc'.1 := by
-  intro fuel
-  induction fuel with
-  | zero => intro acc acc' _ h; simp [greedyLayer] at h
-  | succ fuel ih =>
-    intro acc acc' hl h
-    obtain ⟨curr, cd⟩ := acc
-    simp only [greedyLayer] at h
-    split at h
-    · cases h
-    · next n hn =>
-      split at h
-      · simp only [Except.ok.injEq] at h; subst h; exact hl
-      · next nbs he =>
-        have hnbs : ∀ nb ∈ nbs, isDeleted s nb = false → s.nodes.contains nb = true → P nb := by
-          intro nb hnb
-          refine hcl curr hl nb ?_
-          simp [nbrsAt, node!_eq hn, he, hnb]
-        split at h
-        · cases h
-        · next c' d' hp =>
-          exact ih _ _ (greedyPass_closed m s q P _ _ _ hnbs hl hp) h
-        · next c' d' hp =>
-          simp only [Except.ok.injEq] at h; subst h
-          exact greedyPass_closed m s q P _ _ _ hnbs hl hp
-
-theorem greedyDescend_closed (s : State V) (q : V) (P : Id → Prop)
-    (hcl : ∀ u, P u → ∀ l, ∀ w ∈ nbrsAt s l u, isDeleted s w = false → s.nodes.contains w = true → P w) :
-    ∀ (layers : List Nat) (acc acc' : Id × S), P acc.1 →
-      greedyDescend m s q layers acc = .ok acc' → P acc'.1 := by
-  intro layers
-  induction layers with
-  | nil => intro acc acc' hl h; simp only [greedyDescend, Except.ok.injEq] at h; subst h; exact hl
-  | cons lc rest ih =>
-    intro acc acc' hl h
-    simp only [greedyDescend] at h
-    split at h
-    · cases h
-    · next a hg =>
-      exact ih _ _ (greedyLayer_closed m s q lc P (fun u hu w hw => hcl u hu lc w hw) _ _ _ hl hg) h
-
 /-! ### registering a fresh vertex -/
 
 theorem nbrsAt_register_self (s0 : State V) (x : Id) (v' : V) (level : Nat) (e : Id) (l : Nat) :
@@ -157,261 +87,255 @@ theorem zero_mem_layers (n : Nat) : 0 ∈ (List.range (n + 1)).reverse := by
 
 /-! ### Add -/
 
-/-- what a (successful or rejected) `Add` of a fresh id does to the vertex set -/
-structure AddEffect (s s' : State V) (x : Id) (v : V) (e : Option Err) : Prop where
+/-- what linking a fresh vertex does to the vertex set -/
+structure LinkEffect (s s' : State V) (x : Id) (v' : V) : Prop where
   dim : s'.dim = s.dim
   M : s'.M = s.M
   efC : s'.efC = s.efC
   efS : s'.efS = s.efS
-  rejected : e ≠ none → s' = s ∧ (m.dimOf v ≠ s.dim ∨ m.pre v = none)
-  accepted : e = none → ∃ v', m.dimOf v = s.dim ∧ m.pre v = some v' ∧
-    s'.deleted = s.deleted ∧
-    (∀ j, s'.nodes.contains j = (decide (x = j) || s.nodes.contains j)) ∧
-    (∀ j n, s.nodes.get? j = some n → ∃ n', s'.nodes.get? j = some n' ∧ n'.vec = n.vec) ∧
-    (∃ n', s'.nodes.get? x = some n' ∧ n'.vec = v')
+  deleted : s'.deleted = s.deleted
+  contains : ∀ j, s'.nodes.contains j = (decide (x = j) || s.nodes.contains j)
+  old : ∀ j n, s.nodes.get? j = some n → ∃ n', s'.nodes.get? j = some n' ∧ n'.vec = n.vec
+  new : ∃ n', s'.nodes.get? x = some n' ∧ n'.vec = v'
 
 theorem isDeleted_def (s : State V) (i : Id) : isDeleted s i = s.deleted.contains i := rfl
 
-theorem add_inv (s s' : State V) (x : Id) (v : V) (level : Nat) (pick : Id) (e : Option Err)
-    (hinv : Inv s) (hx0 : x ≠ 0) (hfresh : s.nodes.contains x = false)
+/-- linking a fresh vertex into an index whose entry point is not soft-deleted -/
+theorem addLinked_inv (s s' : State V) (x : Id) (v' : V) (level : Nat)
+    (hinv : Inv s) (hfresh : s.nodes.contains x = false)
     (hentry : isDeleted s s.entry = false)
     (hsmall : s'.nodes.count ≤ 2 * s.M + 1) (hef : s'.nodes.count ≤ s.efC)
-    (h : add m s x v level pick = .ok (s', e)) :
-    Inv s' ∧ AddEffect m s s' x v e := by
+    (h : addLinked m true s x v' level = .ok s') :
+    Inv s' ∧ LinkEffect s s' x v' := by
   have hxdel : s.deleted.contains x = false := by
     cases hc : s.deleted.contains x with
     | false => rfl
     | true => have := hinv.del_res x hc; rw [hfresh] at this; cases this
-  simp only [add, addWith, registerFirst, hxdel, Bool.and_false, Bool.false_eq_true, if_false,
-    if_true] at h
+  simp only [addLinked, if_true] at h
+  -- the state after the maxLevel update
+  generalize hs0 : (if (level : Int) > s.maxLevel then { s with maxLevel := (level : Int) } else s) = s0 at h
+  have hs0n : s0.nodes = s.nodes := by rw [← hs0]; split <;> rfl
+  have hs0d : s0.deleted = s.deleted := by rw [← hs0]; split <;> rfl
+  have hs0e : s0.entry = s.entry := by rw [← hs0]; split <;> rfl
+  have hs0M : s0.M = s.M := by rw [← hs0]; split <;> rfl
+  have hs0C : s0.efC = s.efC := by rw [← hs0]; split <;> rfl
+  have hs0S : s0.efS = s.efS := by rw [← hs0]; split <;> rfl
+  have hs0dim : s0.dim = s.dim := by rw [← hs0]; split <;> rfl
+  have hs0ml : (level : Int) ≤ s0.maxLevel ∧ s.maxLevel ≤ s0.maxLevel := by
+    rw [← hs0]; split <;> simp <;> omega
+  have hnbS : ∀ l j, nbrsAt s0 l j = nbrsAt s l j := nbrsAt_congr_nodes s s0 hs0n
+  have hresS : ∀ j, s0.nodes.contains j = s.nodes.contains j := by intro j; rw [hs0n]
+  have hdelS : ∀ j, isDeleted s0 j = isDeleted s j := by intro j; simp [isDeleted, hs0d]
+  have hlvl : (0 : Int) ≤ s0.maxLevel := by have := hs0ml.1; omega
   split at h
-  · next hdim =>
-    simp only [Except.ok.injEq, Prod.mk.injEq] at h
-    obtain ⟨rfl, rfl⟩ := h
-    exact ⟨hinv, rfl, rfl, rfl, rfl, fun _ => ⟨rfl, Or.inl hdim⟩, fun hh => by cases hh⟩
-  · next hdim =>
-    have hdim' : m.dimOf v = s.dim := by simpa using hdim
+  · -- the first vertex of an empty index
+    next hcond =>
+    simp only [Bool.and_eq_true, beq_iff_eq] at hcond
+    have hempty : ∀ j, s.nodes.contains j = false := by
+      rw [← count_eq_zero_iff, ← hs0n]; exact hcond.2
+    simp only [Except.ok.injEq] at h
+    subst h
+    have hcont : ∀ j, ({ s0 with entry := x, nodes := s0.nodes.set x (Node.new v' level) } : State V).nodes.contains j
+        = (decide (x = j) || s.nodes.contains j) := by
+      intro j; simp only [contains_set, hresS]
+    have hnil : ∀ l j, nbrsAt ({ s0 with entry := x, nodes := s0.nodes.set x (Node.new v' level) } : State V) l j = [] := by
+      intro l j
+      by_cases hj : j = x
+      · subst hj; exact nbrsAt_register_self s0 j v' level j l
+      · rw [nbrsAt_register_ne s0 x v' level x l j hj, hnbS]
+        have := hempty j
+        simp only [IdMap.contains, Option.isSome_eq_false_iff, Option.isNone_iff_eq_none] at this
+        simp [nbrsAt, this]
+    have hxin : ({ s0 with entry := x, nodes := s0.nodes.set x (Node.new v' level) } : State V).nodes.contains x = true := by
+      rw [hcont]; simp
+    refine ⟨⟨?_, ?_, fun _ => hxin, fun _ => hlvl, ?_, ?_, ?_, ?_⟩,
+      ⟨hs0dim, hs0M, hs0C, hs0S, hs0d, hcont, ?_, ?_⟩⟩
+    · intro l j w hw; rw [hnil] at hw; cases hw
+    · intro i hi
+      have : isDeleted s i = true := by rw [← hdelS]; exact hi
+      have := hinv.del_res i this
+      rw [hempty] at this; cases this
+    · intro h0
+      have := (count_eq_zero_iff _).1 h0 x
+      rw [hxin] at this; cases this
+    · intro j _; rw [hnil]; simp
+    · intro u w hu hw hne
+      exfalso
+      have hu' := hu.1; have hw' := hw.1
+      rw [hcont] at hu' hw'
+      simp only [hempty, Bool.or_false, decide_eq_true_eq] at hu' hw'
+      exact hne (hu'.symm.trans hw')
+    · intro w hw hne
+      exfalso
+      have hw' := hw.1
+      rw [hcont] at hw'
+      simp only [hempty, Bool.or_false, decide_eq_true_eq] at hw'
+      exact hne hw'.symm
+    · intro j n hn
+      have := hempty j
+      simp [IdMap.contains, hn] at this
+    · exact ⟨Node.new v' level, by simp [IdMap.get?_set], rfl⟩
+  · -- linking into a non-empty index
+    next hcond =>
+    have hcnt : s.nodes.count ≠ 0 := by
+      intro h0
+      apply hcond
+      simp only [Bool.and_eq_true, beq_iff_eq]
+      exact ⟨by rw [hs0e]; exact hinv.empty_entry h0, by rw [hs0n]; exact h0⟩
+    generalize ht0 : ({ s0 with nodes := s0.nodes.set x (Node.new v' level) } : State V) = t0 at h
+    have ht0' : t0 = ({ s0 with entry := s0.entry, nodes := s0.nodes.set x (Node.new v' level) } : State V) := ht0.symm
+    have hcont : ∀ j, t0.nodes.contains j = (decide (x = j) || s.nodes.contains j) := by
+      intro j; rw [← ht0]; simp only [contains_set, hresS]
+    have hnbx : ∀ l, nbrsAt t0 l x = [] := by
+      intro l; rw [ht0']; exact nbrsAt_register_self s0 x v' level _ l
+    have hnbj : ∀ l j, j ≠ x → nbrsAt t0 l j = nbrsAt s l j := by
+      intro l j hj; rw [ht0', nbrsAt_register_ne s0 x v' level _ l j hj, hnbS]
+    have hdelT : ∀ j, isDeleted t0 j = isDeleted s j := by
+      intro j; rw [← ht0]; simp [isDeleted, hs0d]
+    have hsyncT : t0.nodes.get? x = some (Node.new v' level) := by
+      rw [← ht0]; simp [IdMap.get?_set]
+    have hgetT : ∀ j, j ≠ x → t0.nodes.get? j = s.nodes.get? j := by
+      intro j hj; rw [← ht0]; simp [IdMap.get?_set, Ne.symm hj, hs0n]
+    have hxres : t0.nodes.contains x = true := by rw [hcont]; simp
+    have holdne : ∀ j, s.nodes.contains j = true → j ≠ x := by
+      intro j hj hh; rw [hh, hfresh] at hj; cases hj
+    have hentryS : s.nodes.contains s.entry = true := hinv.entry_res hcnt
+    have hentryT : Live t0 t0.entry ∧ t0.entry ≠ x := by
+      have he : t0.entry = s.entry := by rw [← ht0]; exact hs0e
+      rw [he]
+      exact ⟨⟨by rw [hcont]; simp [hentryS], by rw [hdelT]; exact hentry⟩, holdne _ hentryS⟩
     split at h
-    · next hpre =>
-      simp only [Except.ok.injEq, Prod.mk.injEq] at h
-      obtain ⟨rfl, rfl⟩ := h
-      exact ⟨hinv, rfl, rfl, rfl, rfl, fun _ => ⟨rfl, Or.inr hpre⟩, fun hh => by cases hh⟩
-    · next v' hpre =>
-      -- the state after the maxLevel update
-      generalize hs0 : (if (level : Int) > s.maxLevel then { s with maxLevel := (level : Int) } else s) = s0 at h
-      have hs0n : s0.nodes = s.nodes := by rw [← hs0]; split <;> rfl
-      have hs0d : s0.deleted = s.deleted := by rw [← hs0]; split <;> rfl
-      have hs0e : s0.entry = s.entry := by rw [← hs0]; split <;> rfl
-      have hs0M : s0.M = s.M := by rw [← hs0]; split <;> rfl
-      have hs0C : s0.efC = s.efC := by rw [← hs0]; split <;> rfl
-      have hs0S : s0.efS = s.efS := by rw [← hs0]; split <;> rfl
-      have hs0dim : s0.dim = s.dim := by rw [← hs0]; split <;> rfl
-      have hs0ml : (level : Int) ≤ s0.maxLevel ∧ s.maxLevel ≤ s0.maxLevel := by
-        rw [← hs0]; split <;> simp <;> omega
-      have hnbS : ∀ l j, nbrsAt s0 l j = nbrsAt s l j := nbrsAt_congr_nodes s s0 hs0n
-      have hresS : ∀ j, s0.nodes.contains j = s.nodes.contains j := by intro j; rw [hs0n]
-      have hdelS : ∀ j, isDeleted s0 j = isDeleted s j := by intro j; simp [isDeleted, hs0d]
-      have hlvl : (0 : Int) ≤ s0.maxLevel := by have := hs0ml.1; omega
-      split at h
-      · -- the first vertex of an empty index
-        next hcond =>
-        simp only [Bool.and_eq_true, beq_iff_eq] at hcond
-        have hempty : ∀ j, s.nodes.contains j = false := by
-          rw [← count_eq_zero_iff, ← hs0n]; exact hcond.2
-        simp only [Except.ok.injEq, Prod.mk.injEq] at h
-        obtain ⟨rfl, rfl⟩ := h
-        have hcont : ∀ j, ({ s0 with entry := x, nodes := s0.nodes.set x (Node.new v' level) } : State V).nodes.contains j
-            = (decide (x = j) || s.nodes.contains j) := by
-          intro j; simp only [contains_set, hresS]
-        have hnil : ∀ l j, nbrsAt ({ s0 with entry := x, nodes := s0.nodes.set x (Node.new v' level) } : State V) l j = [] := by
-          intro l j
-          by_cases hj : j = x
-          · subst hj; exact nbrsAt_register_self s0 j v' level j l
-          · rw [nbrsAt_register_ne s0 x v' level x l j hj, hnbS]
-            have := hempty j
-            simp only [IdMap.contains, Option.isSome_eq_false_iff, Option.isNone_iff_eq_none] at this
-            simp [nbrsAt, this]
-        have hxin : ({ s0 with entry := x, nodes := s0.nodes.set x (Node.new v' level) } : State V).nodes.contains x = true := by
-          rw [hcont]; simp
-        refine ⟨⟨?_, ?_, fun _ => hxin, fun _ => hlvl, ?_, ?_, ?_⟩, hs0dim, hs0M, hs0C, hs0S,
-          fun hh => absurd rfl hh, fun _ => ⟨v', hdim', hpre, hs0d, hcont, ?_, ?_⟩⟩
-        · intro l j w hw; rw [hnil] at hw; cases hw
-        · intro i hi
-          have : isDeleted s i = true := by rw [← hdelS]; exact hi
-          have := hinv.del_res i this
-          rw [hempty] at this; cases this
-        · intro h0
-          have := (count_eq_zero_iff _).1 h0 x
-          rw [hxin] at this; cases this
-        · intro j _; rw [hnil]; simp
-        · intro u w hu hw hne
-          exfalso
-          have hu' := hu.1; have hw' := hw.1
-          rw [hcont] at hu' hw'
-          simp only [hempty, Bool.or_false, decide_eq_true_eq] at hu' hw'
-          exact hne (hu'.symm.trans hw')
-        · intro j n hn
-          have := hempty j
-          simp [IdMap.contains, hn] at this
-        · exact ⟨Node.new v' level, by simp [IdMap.get?_set], rfl⟩
-      · -- linking into a non-empty index
-        next hcond =>
-        have hcnt : s.nodes.count ≠ 0 := by
-          intro h0
-          apply hcond
-          simp only [Bool.and_eq_true, beq_iff_eq]
-          exact ⟨by rw [hs0e]; exact hinv.empty_entry h0, by rw [hs0n]; exact h0⟩
-        generalize ht0 : ({ s0 with nodes := s0.nodes.set x (Node.new v' level) } : State V) = t0 at h
-        have ht0' : t0 = ({ s0 with entry := s0.entry, nodes := s0.nodes.set x (Node.new v' level) } : State V) := ht0.symm
-        have hcont : ∀ j, t0.nodes.contains j = (decide (x = j) || s.nodes.contains j) := by
-          intro j; rw [← ht0]; simp only [contains_set, hresS]
-        have hnbx : ∀ l, nbrsAt t0 l x = [] := by
-          intro l; rw [ht0']; exact nbrsAt_register_self s0 x v' level _ l
-        have hnbj : ∀ l j, j ≠ x → nbrsAt t0 l j = nbrsAt s l j := by
-          intro l j hj; rw [ht0', nbrsAt_register_ne s0 x v' level _ l j hj, hnbS]
-        have hdelT : ∀ j, isDeleted t0 j = isDeleted s j := by
-          intro j; rw [← ht0]; simp [isDeleted, hs0d]
-        have hsyncT : t0.nodes.get? x = some (Node.new v' level) := by
-          rw [← ht0]; simp [IdMap.get?_set]
-        have hgetT : ∀ j, j ≠ x → t0.nodes.get? j = s.nodes.get? j := by
-          intro j hj; rw [← ht0]; simp [IdMap.get?_set, Ne.symm hj, hs0n]
-        have hxres : t0.nodes.contains x = true := by rw [hcont]; simp
-        have holdne : ∀ j, s.nodes.contains j = true → j ≠ x := by
-          intro j hj hh; rw [hh, hfresh] at hj; cases hj
-        have hentryS : s.nodes.contains s.entry = true := hinv.entry_res hcnt
-        have hentryT : Live t0 t0.entry ∧ t0.entry ≠ x := by
-          have he : t0.entry = s.entry := by rw [← ht0]; exact hs0e
-          rw [he]
-          exact ⟨⟨by rw [hcont]; simp [hentryS], by rw [hdelT]; exact hentry⟩, holdne _ hentryS⟩
-        split at h
-        · cases h
-        · next s2 nx2 hins =>
-          simp only [Except.ok.injEq, Prod.mk.injEq] at h
-          obtain ⟨rfl, rfl⟩ := h
-          simp only [insertNode] at hins
-          split at hins
-          · cases hins
-          · next en hen =>
-            split at hins
-            · cases hins
-            · next curr cd hg =>
-              -- the descent ends on an old live vertex
-              have hcurr : Live t0 (curr, cd).1 ∧ (curr, cd).1 ≠ x := by
-                refine greedyDescend_closed m t0 _ (fun i => Live t0 i ∧ i ≠ x) ?_ _ _ _ hentryT hg
-                intro u hu l w hw hwd hwr
-                refine ⟨⟨hwr, hwd⟩, ?_⟩
-                rw [hnbj l u hu.2] at hw
-                exact holdne w (hinv.resolves l u w hw)
-              -- hypotheses of the layer loop
-              have hcountT : t0.nodes.count = s.nodes.count + 1 := by
-                rw [← ht0]; simp only; rw [hs0n]; exact count_set_new _ _ _ hfresh
-              have hshape02 := (insertLayers_shape m x _ _ t0 s2 _ nx2 curr hsyncT hins).1
-              have hcountS2 : t0.nodes.count = s2.nodes.count := by
-                simp only [IdMap.count]; exact hshape02.count.length_eq.symm
-              have hpreT : Pre t0 x := by
-                refine ⟨hxres, by rw [hdelT, isDeleted_def]; exact hxdel, hnbx, ?_, ?_, ?_, ?_, ?_, ?_⟩
-                · intro l j hh
-                  by_cases hj : j = x
-                  · subst hj; rw [hnbx] at hh; cases hh
-                  · rw [hnbj l j hj] at hh
-                    exact holdne x (hinv.resolves l j x hh) rfl
-                · intro l j w hw
-                  by_cases hj : j = x
-                  · subst hj; rw [hnbx] at hw; cases hw
-                  · rw [hnbj l j hj] at hw
-                    rw [hcont]; simp [hinv.resolves l j w hw]
-                · intro j hj
-                  by_cases hjx : j = x
-                  · subst hjx; rw [hnbx]; simp
-                  · rw [hnbj 0 j hjx]
-                    rw [hcont] at hj
-                    simp only [Bool.or_eq_true, decide_eq_true_eq] at hj
-                    rcases hj with hj | hj
-                    · exact absurd hj.symm hjx
-                    · exact hinv.l0 j hj
-                · intro u w hu hux hw hwx hne
-                  rw [hnbj 0 u hux]
-                  have hu' : Live s u := by
-                    have := hu.1; rw [hcont] at this
-                    simp only [Bool.or_eq_true, decide_eq_true_eq] at this
-                    rcases this with h1 | h1
-                    · exact absurd h1.symm hux
-                    · exact ⟨h1, by rw [← hdelT]; exact hu.2⟩
-                  have hw' : Live s w := by
-                    have := hw.1; rw [hcont] at this
-                    simp only [Bool.or_eq_true, decide_eq_true_eq] at this
-                    rcases this with h1 | h1
-                    · exact absurd h1.symm hwx
-                    · exact ⟨h1, by rw [← hdelT]; exact hw.2⟩
-                  exact hinv.comp u w hu' hw' hne
-                · rw [hcountS2, show t0.M = s.M by rw [← ht0]; exact hs0M]; exact hsmall
-                · rw [hcountS2, show t0.efC = s.efC by rw [← ht0]; exact hs0C]; omega
-              have hJ0 : J t0 t0 x (Node.new v' level) curr ((List.range (level + 1)).reverse) := by
-                refine ⟨Shape.refl t0, hsyncT, hpreT.resolves, fun l _ j => hpreT.no_in l j,
-                  fun l _ => hnbx l, hcurr, fun _ _ => rfl, fun h0 => absurd (zero_mem_layers level) h0⟩
-              obtain ⟨curr', hJ⟩ := insertLayers_inv m t0 x _ hpreT _ t0 s2 _ nx2 curr
-                (layers_nodup level) hJ0 hins
-              have hF := hJ.l0b (by simp)
-              have hsh := hJ.shape
-              have hliveT : ∀ j, Live s2 j ↔ Live t0 j := hsh.live
-              have hx2 : s2.nodes.contains x = true := by rw [hsh.contains]; exact hxres
-              refine ⟨⟨hJ.resolves, ?_, ?_, ?_, ?_, ?_, ?_⟩, ?_, ?_, ?_, ?_, fun hh => absurd rfl hh,
-                fun _ => ⟨v', hdim', hpre, ?_, ?_, ?_, ?_⟩⟩
-              · intro i hi
-                rw [hsh.isDeleted, hdelT] at hi
-                rw [hsh.contains, hcont]; simp [hinv.del_res i hi]
-              · intro _
-                rw [hsh.contains, hsh.entry]; exact hentryT.1.1
-              · intro _
-                rw [hsh.maxLevel, ← ht0]; exact hlvl
-              · intro h0
-                have := (count_eq_zero_iff _).1 h0 x
-                rw [hx2] at this; cases this
-              · intro j hj
-                rw [hsh.contains] at hj
-                by_cases hjx : j = x
-                · subst hjx
-                  exact ⟨hF.x_nodup, fun hh => ((hF.x_mem j).1 hh).2 rfl⟩
-                · by_cases hjl : Live t0 j
-                  · rw [hF.back j hjl hjx]
-                    have hw := hpreT.l0 j hj
-                    refine ⟨?_, ?_⟩
-                    · rw [List.nodup_append]
-                      refine ⟨hw.1, by simp, ?_⟩
-                      intro a ha b hb
-                      simp only [List.mem_singleton] at hb
-                      subst hb
-                      intro hab; subst hab
-                      exact hpreT.no_in 0 j ha
-                    · simp only [List.mem_append, List.mem_singleton, not_or]
-                      exact ⟨hw.2, hjx⟩
-                  · rw [hF.rest j hjx hjl]; exact hpreT.l0 j hj
-              · intro u w hu hw hne
-                have hu' := (hliveT u).1 hu
-                have hw' := (hliveT w).1 hw
-                by_cases hux : u = x
-                · subst hux
-                  exact (hF.x_mem w).2 ⟨hw', fun hh => hne hh.symm⟩
-                · rw [hF.back u hu' hux]
-                  by_cases hwx : w = x
-                  · subst hwx; simp
-                  · exact List.mem_append.2 (Or.inl (hpreT.comp u w hu' hux hw' hwx hne))
-              · rw [hsh.dim, ← ht0]; exact hs0dim
-              · rw [hsh.M, ← ht0]; exact hs0M
-              · rw [hsh.efC, ← ht0]; exact hs0C
-              · rw [hsh.efS, ← ht0]; exact hs0S
-              · rw [hsh.deleted, ← ht0]; exact hs0d
-              · intro j; rw [hsh.contains, hcont]
-              · intro j n hn
-                have hjx : j ≠ x := holdne j (IdMap.contains_iff.2 ⟨n, hn⟩)
-                rcases hsh.nodes j with ⟨ha, _⟩ | ⟨n0, n', ha, hb, hv, _⟩
-                · rw [hgetT j hjx, hn] at ha; cases ha
-                · rw [hgetT j hjx, hn] at ha; cases ha
-                  exact ⟨n', hb, hv⟩
-              · rcases hsh.nodes x with ⟨ha, _⟩ | ⟨n0, n', ha, hb, hv, _⟩
-                · rw [hsyncT] at ha; cases ha
-                · rw [hsyncT] at ha; cases ha
-                  exact ⟨n', hb, hv⟩
+    · cases h
+    · next s2 nx2 hins =>
+      simp only [Except.ok.injEq] at h
+      subst h
+      simp only [insertNode] at hins
+      split at hins
+      · cases hins
+      · next en hen =>
+        split at hins
+        · cases hins
+        · next curr cd hg =>
+          -- the descent ends on an old live vertex
+          have hcurr : Live t0 (curr, cd).1 ∧ (curr, cd).1 ≠ x := by
+            refine greedyDescend_closed m t0 _ (fun i => Live t0 i ∧ i ≠ x) ?_ _ _ _ hentryT hg
+            intro u hu l w hw hwd hwr
+            refine ⟨⟨hwr, hwd⟩, ?_⟩
+            rw [hnbj l u hu.2] at hw
+            exact holdne w (hinv.resolves l u w hw)
+          -- hypotheses of the layer loop
+          have hcountT : t0.nodes.count = s.nodes.count + 1 := by
+            rw [← ht0]; simp only; rw [hs0n]; exact count_set_new _ _ _ hfresh
+          have hshape02 := (insertLayers_shape m x _ _ t0 s2 _ nx2 curr hsyncT hins).1
+          have hcountS2 : t0.nodes.count = s2.nodes.count := by
+            simp only [IdMap.count]; exact hshape02.count.length_eq.symm
+          have hpreT : Pre t0 x := by
+            refine ⟨hxres, by rw [hdelT, isDeleted_def]; exact hxdel, hnbx, ?_, ?_, ?_, ?_, ?_, ?_⟩
+            · intro l j hh
+              by_cases hj : j = x
+              · subst hj; rw [hnbx] at hh; cases hh
+              · rw [hnbj l j hj] at hh
+                exact holdne x (hinv.resolves l j x hh) rfl
+            · intro l j w hw
+              by_cases hj : j = x
+              · subst hj; rw [hnbx] at hw; cases hw
+              · rw [hnbj l j hj] at hw
+                rw [hcont]; simp [hinv.resolves l j w hw]
+            · intro j hj
+              by_cases hjx : j = x
+              · subst hjx; rw [hnbx]; simp
+              · rw [hnbj 0 j hjx]
+                rw [hcont] at hj
+                simp only [Bool.or_eq_true, decide_eq_true_eq] at hj
+                rcases hj with hj | hj
+                · exact absurd hj.symm hjx
+                · exact hinv.l0 j hj
+            · intro u w hu hux hw hwx hne
+              rw [hnbj 0 u hux]
+              have hu' : Live s u := by
+                have := hu.1; rw [hcont] at this
+                simp only [Bool.or_eq_true, decide_eq_true_eq] at this
+                rcases this with h1 | h1
+                · exact absurd h1.symm hux
+                · exact ⟨h1, by rw [← hdelT]; exact hu.2⟩
+              have hw' : Live s w := by
+                have := hw.1; rw [hcont] at this
+                simp only [Bool.or_eq_true, decide_eq_true_eq] at this
+                rcases this with h1 | h1
+                · exact absurd h1.symm hwx
+                · exact ⟨h1, by rw [← hdelT]; exact hw.2⟩
+              exact hinv.comp u w hu' hw' hne
+            · rw [hcountS2, show t0.M = s.M by rw [← ht0]; exact hs0M]; exact hsmall
+            · rw [hcountS2, show t0.efC = s.efC by rw [← ht0]; exact hs0C]; omega
+          have hJ0 : J t0 t0 x (Node.new v' level) curr ((List.range (level + 1)).reverse) := by
+            refine ⟨Shape.refl t0, hsyncT, hpreT.resolves, fun l _ j => hpreT.no_in l j,
+              fun l _ => hnbx l, hcurr, fun _ _ => rfl, fun h0 => absurd (zero_mem_layers level) h0⟩
+          obtain ⟨curr', hJ⟩ := insertLayers_inv m t0 x _ hpreT _ t0 s2 _ nx2 curr
+            (layers_nodup level) hJ0 hins
+          have hF := hJ.l0b (by simp)
+          have hsh := hJ.shape
+          have hliveT : ∀ j, Live s2 j ↔ Live t0 j := hsh.live
+          have hx2 : s2.nodes.contains x = true := by rw [hsh.contains]; exact hxres
+          have hcomp2 : Complete0 s2 := by
+            intro u w hu hw hne
+            have hu' := (hliveT u).1 hu
+            have hw' := (hliveT w).1 hw
+            by_cases hux : u = x
+            · subst hux
+              exact (hF.x_mem w).2 ⟨hw', fun hh => hne hh.symm⟩
+            · rw [hF.back u hu' hux]
+              by_cases hwx : w = x
+              · subst hwx; simp
+              · exact List.mem_append.2 (Or.inl (hpreT.comp u w hu' hux hw' hwx hne))
+          refine ⟨⟨hJ.resolves, ?_, ?_, ?_, ?_, ?_, hcomp2, ?_⟩, ⟨?_, ?_, ?_, ?_, ?_, ?_, ?_, ?_⟩⟩
+          · intro i hi
+            rw [hsh.isDeleted, hdelT] at hi
+            rw [hsh.contains, hcont]; simp [hinv.del_res i hi]
+          · intro _
+            rw [hsh.contains, hsh.entry]; exact hentryT.1.1
+          · intro _
+            rw [hsh.maxLevel, ← ht0]; exact hlvl
+          · intro h0
+            have := (count_eq_zero_iff _).1 h0 x
+            rw [hx2] at this; cases this
+          · intro j hj
+            rw [hsh.contains] at hj
+            by_cases hjx : j = x
+            · subst hjx
+              exact ⟨hF.x_nodup, fun hh => ((hF.x_mem j).1 hh).2 rfl⟩
+            · by_cases hjl : Live t0 j
+              · rw [hF.back j hjl hjx]
+                have hw := hpreT.l0 j hj
+                refine ⟨?_, ?_⟩
+                · rw [List.nodup_append]
+                  refine ⟨hw.1, by simp, ?_⟩
+                  intro a ha b hb
+                  simp only [List.mem_singleton] at hb
+                  subst hb
+                  intro hab; subst hab
+                  exact hpreT.no_in 0 j ha
+                · simp only [List.mem_append, List.mem_singleton, not_or]
+                  exact ⟨hw.2, hjx⟩
+              · rw [hF.rest j hjx hjl]; exact hpreT.l0 j hj
+          · intro v hv hne
+            rw [hsh.entry] at hne ⊢
+            exact hcomp2 _ v ((hliveT _).2 hentryT.1) hv (Ne.symm hne)
+          · rw [hsh.dim, ← ht0]; exact hs0dim
+          · rw [hsh.M, ← ht0]; exact hs0M
+          · rw [hsh.efC, ← ht0]; exact hs0C
+          · rw [hsh.efS, ← ht0]; exact hs0S
+          · rw [hsh.deleted, ← ht0]; exact hs0d
+          · intro j; rw [hsh.contains, hcont]
+          · intro j n hn
+            have hjx : j ≠ x := holdne j (IdMap.contains_iff.2 ⟨n, hn⟩)
+            rcases hsh.nodes j with ⟨ha, _⟩ | ⟨n0, n', ha, hb, hv, _⟩
+            · rw [hgetT j hjx, hn] at ha; cases ha
+            · rw [hgetT j hjx, hn] at ha; cases ha
+              exact ⟨n', hb, hv⟩
+          · rcases hsh.nodes x with ⟨ha, _⟩ | ⟨n0, n', ha, hb, hv, _⟩
+            · rw [hsyncT] at ha; cases ha
+            · rw [hsyncT] at ha; cases ha
+              exact ⟨n', hb, hv⟩
 
 /-! ### Remove -/
 
@@ -440,7 +364,7 @@ theorem remove_inv (s : State V) (id : Id) (hinv : Inv s) :
         intro j
         simp only [isDeleted, contains_set, hres', Bool.and_true]
         rw [Bool.or_comm]
-      refine ⟨⟨hinv.resolves, ?_, hinv.entry_res, hinv.ml, hinv.empty_entry, hinv.l0, ?_⟩,
+      refine ⟨⟨hinv.resolves, ?_, hinv.entry_res, hinv.ml, hinv.empty_entry, hinv.l0, ?_, ?_⟩,
         rfl, rfl, rfl, rfl, rfl, rfl, hd⟩
       · intro i hi
         rw [hd] at hi
@@ -452,6 +376,9 @@ theorem remove_inv (s : State V) (id : Id) (hinv : Inv s) :
         have hu' : Live s u := ⟨hu.1, by have := hu.2; rw [hd] at this; simp at this; exact this.1⟩
         have hw' : Live s w := ⟨hw.1, by have := hw.2; rw [hd] at this; simp at this; exact this.1⟩
         exact hinv.comp u w hu' hw' hne
+      · intro w hw hne
+        have hw' : Live s w := ⟨hw.1, by have := hw.2; rw [hd] at this; simp at this; exact this.1⟩
+        exact hinv.entry_comp w hw' hne
 
 /-! ### Flush -/
 
@@ -545,7 +472,8 @@ theorem flush_inv (s : State V) (e : Id) (hinv : Inv s) (he : e ∈ flushChoices
       ∃ n', (flushTo s e).nodes.get? j = some n' ∧ n'.vec = n.vec) ∧
     (∀ j, (flushTo s e).nodes.contains j = true → s.nodes.contains j = true) ∧
     (isDeleted s s.entry = false → (flushTo s e).entry = s.entry) ∧
-    (∀ j, isDeleted (flushTo s e) j = true → isDeleted s j = true) := by
+    (∀ j, isDeleted (flushTo s e) j = true → isDeleted s j = true) ∧
+    (s.deleted.count ≠ 0 → ∀ j, isDeleted (flushTo s e) j = false) := by
   rw [flushTo_eq]
   split
   · next hzero =>
@@ -554,7 +482,7 @@ theorem flush_inv (s : State V) (e : Id) (hinv : Inv s) (he : e ∈ flushChoices
       have := (count_eq_zero_iff s.deleted).1 (by simpa using hzero) j
       simpa [isDeleted] using this
     refine ⟨hinv, rfl, rfl, rfl, rfl, fun _ => Iff.rfl, fun j n _ hn => ⟨n, hn, rfl⟩,
-      fun _ h => h, fun _ => rfl, fun _ h => h⟩
+      fun _ h => h, fun _ => rfl, fun _ h => h, fun hh => absurd (by simpa using hzero) hh⟩
   · generalize hs' : flushed s e = s'
     have hget : ∀ j, s'.nodes.get? j =
         if isDeleted s j then none else (s.nodes.get? j).map (flushNode s) := by
@@ -608,8 +536,8 @@ theorem flush_inv (s : State V) (e : Id) (hinv : Inv s) (he : e ∈ flushChoices
       obtain ⟨j, hj⟩ := List.exists_mem_of_ne_nil _ (hcnt hc)
       have := (count_eq_zero_iff _).1 h0 j
       rw [(mem_liveIds.1 hj).1] at this; cases this
-    refine ⟨⟨?_, ?_, ?_, ?_, ?_, ?_, ?_⟩, by rw [← hs']; rfl, by rw [← hs']; rfl, by rw [← hs']; rfl,
-      by rw [← hs']; rfl, hlive, ?_, ?_, ?_, ?_⟩
+    refine ⟨⟨?_, ?_, ?_, ?_, ?_, ?_, ?_, ?_⟩, by rw [← hs']; rfl, by rw [← hs']; rfl, by rw [← hs']; rfl,
+      by rw [← hs']; rfl, hlive, ?_, ?_, ?_, ?_, fun _ => hdel'⟩
     · intro l j w hw
       rw [hnb] at hw
       split at hw
@@ -664,6 +592,25 @@ theorem flush_inv (s : State V) (e : Id) (hinv : Inv s) (he : e ∈ flushChoices
       rw [hnb, hu'.2]
       simp only [Bool.false_eq_true, if_false, List.mem_filter, Bool.not_eq_true']
       exact ⟨hinv.comp u w hu' hw' hne, hw'.2⟩
+    · intro w hw hne
+      rw [hentry'] at hne ⊢
+      have hw' := (hlive w).1 hw
+      rw [hnb]
+      cases hde : isDeleted s s.entry with
+      | false =>
+        have hee := hspec.1 hde
+        rw [hee] at hne ⊢
+        rw [hde]
+        simp only [Bool.false_eq_true, if_false, List.mem_filter, Bool.not_eq_true']
+        exact ⟨hinv.entry_comp w hw' hne, hw'.2⟩
+      | true =>
+        have hle : Live s e := (hspec.2 hde).1 (by
+          intro hnil
+          have := mem_liveIds.2 hw'
+          rw [hnil] at this; cases this)
+        rw [hle.2]
+        simp only [Bool.false_eq_true, if_false, List.mem_filter, Bool.not_eq_true']
+        exact ⟨hinv.comp e w hle hw' (Ne.symm hne), hw'.2⟩
     · intro j n hl hn
       refine ⟨flushNode s n, ?_, rfl⟩
       rw [hget, hl.2, hn]; simp
@@ -674,6 +621,104 @@ theorem flush_inv (s : State V) (e : Id) (hinv : Inv s) (he : e ∈ flushChoices
     · intro hde
       rw [hentry', hspec.1 hde]
     · intro j hj; rw [hdel'] at hj; cases hj
+
+/-! ### Add = (purge tombstones when the entry point is soft-deleted) + link -/
+
+/-- what a (successful or rejected) `Add` of a fresh id does to the live vertices -/
+structure AddEffect (s s' : State V) (x : Id) (v : V) (e : Option Err) : Prop where
+  dim : s'.dim = s.dim
+  M : s'.M = s.M
+  efC : s'.efC = s.efC
+  efS : s'.efS = s.efS
+  rejected : e ≠ none → s' = s ∧ (m.dimOf v ≠ s.dim ∨ m.pre v = none)
+  accepted : e = none → ∃ v', m.dimOf v = s.dim ∧ m.pre v = some v' ∧
+    (∀ j, Live s' j ↔ (j = x ∨ Live s j)) ∧
+    (∀ j n, Live s j → s.nodes.get? j = some n → ∃ n', s'.nodes.get? j = some n' ∧ n'.vec = n.vec) ∧
+    (∃ n', s'.nodes.get? x = some n' ∧ n'.vec = v') ∧
+    (∀ j, s'.nodes.contains j = true → j = x ∨ s.nodes.contains j = true)
+
+theorem add_inv (s s' : State V) (x : Id) (v : V) (level : Nat) (pick : Id) (e : Option Err)
+    (hinv : Inv s) (hfresh : s.nodes.contains x = false)
+    (hpick : s.deleted.contains s.entry = true → pick ∈ flushChoices s)
+    (hsmall : s'.nodes.count ≤ 2 * s.M + 1) (hef : s'.nodes.count ≤ s.efC)
+    (h : add m s x v level pick = .ok (s', e)) :
+    Inv s' ∧ AddEffect m s s' x v e := by
+  have hxdel : s.deleted.contains x = false := by
+    cases hc : s.deleted.contains x with
+    | false => rfl
+    | true => have := hinv.del_res x hc; rw [hfresh] at this; cases this
+  simp only [add, addWith, registerFirst, hxdel, Bool.and_false, Bool.false_eq_true, if_false] at h
+  split at h
+  · next hdim =>
+    simp only [Except.ok.injEq, Prod.mk.injEq] at h
+    obtain ⟨rfl, rfl⟩ := h
+    exact ⟨hinv, rfl, rfl, rfl, rfl, fun _ => ⟨rfl, Or.inl hdim⟩, fun hh => by cases hh⟩
+  · next hdim =>
+    have hdim' : m.dimOf v = s.dim := by simpa using hdim
+    split at h
+    · next hpre =>
+      simp only [Except.ok.injEq, Prod.mk.injEq] at h
+      obtain ⟨rfl, rfl⟩ := h
+      exact ⟨hinv, rfl, rfl, rfl, rfl, fun _ => ⟨rfl, Or.inr hpre⟩, fun hh => by cases hh⟩
+    · next v' hpre =>
+      -- the state after the purge (if any)
+      generalize hsf : (if s.deleted.contains s.entry = true then flushTo s pick else s) = sf at h
+      have hF : Inv sf ∧ sf.dim = s.dim ∧ sf.M = s.M ∧ sf.efC = s.efC ∧ sf.efS = s.efS ∧
+          (∀ j, Live sf j ↔ Live s j) ∧
+          (∀ j n, Live s j → s.nodes.get? j = some n → ∃ n', sf.nodes.get? j = some n' ∧ n'.vec = n.vec) ∧
+          (∀ j, sf.nodes.contains j = true → s.nodes.contains j = true) ∧
+          isDeleted sf sf.entry = false := by
+        rw [← hsf]
+        split
+        · next hd =>
+          obtain ⟨a, b, c, d, e', f, g, i, _, _, k⟩ := flush_inv s pick hinv (hpick hd)
+          refine ⟨a, b, c, d, e', f, g, i, ?_⟩
+          refine k ?_ _
+          intro h0
+          have := (count_eq_zero_iff s.deleted).1 h0 s.entry
+          rw [hd] at this; cases this
+        · next hd =>
+          exact ⟨hinv, rfl, rfl, rfl, rfl, fun _ => Iff.rfl, fun j n _ hn => ⟨n, hn, rfl⟩,
+            fun _ hh => hh, by simpa [isDeleted] using hd⟩
+      obtain ⟨hinvF, hFd, hFM, hFC, hFS, hFlive, hFvec, hFsub, hFent⟩ := hF
+      have hfreshF : sf.nodes.contains x = false := by
+        cases hc : sf.nodes.contains x with
+        | false => rfl
+        | true => have := hFsub x hc; rw [hfresh] at this; cases this
+      split at h
+      · cases h
+      · next s2 hlink =>
+        simp only [Except.ok.injEq, Prod.mk.injEq] at h
+        obtain ⟨rfl, rfl⟩ := h
+        obtain ⟨hinv2, heff⟩ := addLinked_inv m sf s2 x v' level hinvF hfreshF hFent
+          (by rw [hFM]; exact hsmall) (by rw [hFC]; exact hef) hlink
+        have hxdelF : isDeleted sf x = false := by
+          cases hd : isDeleted sf x with
+          | false => rfl
+          | true => have := hinvF.del_res x hd; rw [hfreshF] at this; cases this
+        have hdel2 : ∀ j, isDeleted s2 j = isDeleted sf j := by intro j; simp [isDeleted, heff.deleted]
+        refine ⟨hinv2, heff.dim.trans hFd, heff.M.trans hFM, heff.efC.trans hFC, heff.efS.trans hFS,
+          fun hh => absurd rfl hh, fun _ => ⟨v', hdim', hpre, ?_, ?_, heff.new, ?_⟩⟩
+        · intro j
+          simp only [Live, heff.contains, hdel2, Bool.or_eq_true, decide_eq_true_eq]
+          constructor
+          · rintro ⟨hc | hc, hd⟩
+            · exact Or.inl hc.symm
+            · exact Or.inr ((hFlive j).1 ⟨hc, hd⟩)
+          · rintro (rfl | hl)
+            · exact ⟨Or.inl rfl, hxdelF⟩
+            · have := (hFlive j).2 hl
+              exact ⟨Or.inr this.1, this.2⟩
+        · intro j n hl hn
+          obtain ⟨n1, hn1, hv1⟩ := hFvec j n hl hn
+          obtain ⟨n2, hn2, hv2⟩ := heff.old j n1 hn1
+          exact ⟨n2, hn2, hv2.trans hv1⟩
+        · intro j hj
+          rw [heff.contains] at hj
+          simp only [Bool.or_eq_true, decide_eq_true_eq] at hj
+          rcases hj with hj | hj
+          · exact Or.inl hj.symm
+          · exact Or.inr (hFsub j hj)
 
 end
 end Comet.HNSW
